@@ -99,6 +99,8 @@ def printFloatBits (f : Float) : String :=
     let b := f.toBits.toNat
     String.ofList ((List.range 16).map (fun i => hexDigit ((b >>> (4 * (15 - i))) % 16)))
 
+instance : ScalarIO Z64 := ⟨fun s => s.toInt?.map (fun i => (⟨i⟩ : Z64)), fun z => some (toString z.val)⟩
+
 instance : ScalarIO Float := ⟨parseFloatBits, fun f => some (printFloatBits f)⟩
 
 section
@@ -300,6 +302,7 @@ def runLine (line : String) : String :=
       match s with
       | "Q" => (runOp (α := Rat)).run rest
       | "F" => (runOp (α := Float)).run rest
+      | "I" => (runOp (α := Z64)).run rest
       | _ => .error s!"bad scalar type {s}"
     match r with
     | .ok (out, []) => s!"{id} {out}"
